@@ -56,6 +56,9 @@ type Val struct {
 	// the heap as it is when the value is nil / non-nil. Applied at a branch
 	// `v ==/!= nil` if the heap has not been modified since the call.
 	Corr *Corr
+	// Alts (only on a Tuple returned by an evaluated callee with several return sites): the tuple of each
+	// return site. A branch on one boolean component filters them (see Machine.refine).
+	Alts []Val
 }
 
 type Corr struct {
